@@ -12,11 +12,11 @@
 (*  - MONITORS driven only by the inputs (who is physically held, which       *)
 (*    columns are strobed, tick counts), from which the property clauses are  *)
 (*    stated without reference to the automaton's private counters.           *)
-EXTENDS Integers, Sequences, FiniteSets, TLC
+EXTENDS Integers, Sequences, FiniteSets, TLC, KeyAutomaton
 
 CONSTANTS Keys,          \* set of key ids; Col(k), Row(k) below
           KeyCol, KeyRow, \* [Keys -> 0..10], [Keys -> 0..7]
-          PressTh, ReleaseTh, RepDelay, RepInterval,   \* ticks; RepInterval = 0 disables repeats
+          \* PressTh, ReleaseTh, RepDelay, RepInterval (ticks; RepInterval = 0 disables repeats) are declared in KeyAutomaton
           Cap,           \* FIFO capacity (events held)
           ActiveHigh,    \* column polarity
           StrobeVals,    \* values written to KOL (KOH is kept inactive in the small model)
@@ -39,7 +39,6 @@ ColActive(c, l, h) == LET b == IF c < 8 THEN Bit(l, c) ELSE Bit(h, c - 8) IN IF 
 Strobed(k, l, h) == ColActive(KeyCol[k], l, h)
 Inactive == IF ActiveHigh THEN 0 ELSE 255
 
-K0 == [pressed |-> FALSE, deb |-> FALSE, pt |-> 0, rt |-> 0, rep |-> 0]
 \* monitors: held = physically down; hs = consecutive ticks held on a strobed column; sr = ticks since physical release
 \* (ReleaseTh = "long ago"); se = held-and-strobed ticks since this key's last press/repeat event; last = kind of its last event
 \* ab = consecutive scan ticks on which the key was NOT held on a strobed column (ReleaseTh = "long ago")
@@ -50,25 +49,6 @@ Init ==
   /\ fifo = <<>> /\ ret = {-1} /\ newev = <<>>
   /\ mon = [k \in Keys |-> M0] /\ hist = [k \in Keys |-> <<>>]
   /\ acts = <<>> /\ depth = 0 /\ lastact = "Init"
-
-\* ---- the per-key automaton for one scan tick; returns the new key state and the event kind ("", "P", "R")
-TickKey(s, strobed) ==
-  IF s.pressed /\ strobed THEN
-     IF ~s.deb THEN
-        IF s.pt + 1 >= PressTh
-        THEN [s |-> [s EXCEPT !.deb = TRUE, !.pt = PressTh, !.rt = 0, !.rep = RepDelay], ev |-> "P"]
-        ELSE [s |-> [s EXCEPT !.pt = s.pt + 1], ev |-> ""]
-     ELSE IF RepInterval > 0 THEN
-             LET r == IF s.rep > 0 THEN s.rep - 1 ELSE 0 IN
-             IF r <= 0 THEN [s |-> [s EXCEPT !.rt = 0, !.rep = RepInterval], ev |-> "P"]
-             ELSE [s |-> [s EXCEPT !.rt = 0, !.rep = r], ev |-> ""]
-          ELSE [s |-> [s EXCEPT !.rt = 0], ev |-> ""]
-  ELSE LET s1 == [s EXCEPT !.pt = 0] IN
-       IF s.deb THEN
-          IF s.rt + 1 >= ReleaseTh
-          THEN [s |-> [s1 EXCEPT !.deb = FALSE, !.rt = 0, !.rep = 0], ev |-> "R"]
-          ELSE [s |-> [s1 EXCEPT !.rt = s.rt + 1], ev |-> ""]
-       ELSE [s |-> (IF ~s.pressed THEN [s1 EXCEPT !.rep = 0] ELSE s1), ev |-> ""]
 
 \* keys are scanned in a fixed order (ascending id); events are enqueued in that order
 RECURSIVE SeqOfSet(_)
